@@ -437,10 +437,10 @@ class GridFlow(WidgetWrap[Pile], WidgetContainerMixin, WidgetContainerListConten
         #     ...])
 
         pile_focus = self._w.focus
-        if not pile_focus:
+        if pile_focus is None:
             return
         c = pile_focus.base_widget
-        if c.focus:
+        if c.focus is not None:  # (an empty container in focus is falsy)
             col_focus_position = c.focus_position
         else:
             col_focus_position = 0
